@@ -556,7 +556,9 @@ def check_C10(A: Analysis, tier):
                 continue
             rc.ob()
             rc.inst(f"delete_object [{m}] except {lab}")
-            if o.ret is None:
+            from .state import join as _join
+            done_state = _join(o.ret, o.normal)   # `return` or falling off the handler
+            if done_state is None:
                 rc.fail(fn, f"except {lab}", f"clean-up branch for {lab} never completes normally", A.p.loc(fn, h))
                 continue
             in_finally = {norm(c.func).split(".")[-1] for t in func_nodes(fn, ast.Try) if t.finalbody and any(h is x for x in ast.walk(t))
@@ -566,7 +568,7 @@ def check_C10(A: Analysis, tier):
                               (("call", Q("_delete_marked_files")), "call _delete_marked_files")):
                 if want[0] == "call" and want[1].split(".")[-1] in in_finally:
                     continue
-                if want not in o.ret.done:
+                if want not in done_state.done:
                     rc.fail(fn, f"except {lab}", f"clean-up branch for {lab} can return without having to {txt}: the pid stays wedged",
                             A.p.loc(fn, h))
         for ev in it.events:
